@@ -224,6 +224,9 @@ def get_method_and_class(class_object: Type, method_name: str) -> Optional[Tuple
             found_obj = c
             found_method = m
         else:
+            if m is None:
+                # A class along the way (a mixin, `Generic`) that does not have the method at all
+                continue
             if found_method == m:
                 found_obj = c
             else:
